@@ -527,6 +527,31 @@ def run(ctx):
         r.fail(m, c, norm(c)[:70], "%s squeezes text through `%s`: on that path characters of the message and of the source lines are replaced, so the report no longer contains the message text" % (m.short, norm(c)[:60]))
     if not lossy:
         r.ok("no lossy re-encoding in ExceptionTrace / Highlighter")
+    # ---------------------------------------------------------------- R13
+    r = ctx.rule("C20-R13", "EXC", "a frame's file name is whatever the code object says ('<string>', a relative name, a template path): the trace renderer applies to it only total "
+                 "path functions - a partial one (os.path.commonpath / relpath raise ValueError for a relative or empty name, samefile / getsize / stat raise OSError) "
+                 "sits under a handler for that class", reference=0)
+    PARTIAL = {"commonpath": "ValueError", "relpath": "ValueError", "commonprefix": None, "samefile": "OSError", "getsize": "OSError", "getmtime": "OSError", "stat": "OSError", "lstat": "OSError",
+               "listdir": "OSError", "readlink": "OSError"}
+    n13 = 0
+    for f in sorted([x for x in p.all_functions() if x.module.name == "clikit.ui.components.exception_trace"], key=lambda x: x.qualname):
+        fcfg = ctx.cfg(f)
+        for c in q.calls(f):
+            nm = c.func.attr if isinstance(c.func, ast.Attribute) else (c.func.id if isinstance(c.func, ast.Name) else None)
+            if PARTIAL.get(nm) is None or not (isinstance(c.func, ast.Name) or norm(c.func.value) in ("os.path", "os", "path", "posixpath", "ntpath")):
+                continue
+            n13 += 1
+            need = PARTIAL[nm]
+            hs = handler_names(fcfg, [n.id for n in fcfg.nodes_of(c)])
+            if any(h is None or any(x in (need, "Exception", "BaseException") or (need == "OSError" and x in ("IOError", "EnvironmentError")) for x in h) for h in hs):
+                r.ok("%s: %s under a handler for %s" % (f.short, norm(c.func), need))
+            else:
+                r.fail(f, c, "%s without a handler for %s" % (norm(c.func), need), "%s calls %s on a frame's file name outside any handler for %s: a frame whose file name is not an absolute path "
+                       "('<string>', code compiled under a relative name) makes the trace renderer itself raise, inside the except block of run() - the exception leaks" % (f.short, norm(c.func), need))
+    if n13 == 0:
+        r.vacuous_ok = True
+        r.note("the trace renderer calls no partial path function")
+
     return ctx.results
 
 
